@@ -219,6 +219,10 @@ def cert(case):
     # scratch slots (MapIn.levelsIndepB; a theorem from the map certificate, evaluated here independently), every
     # (level_starts[i], level_stops[i]) inside one level (oneLevelB) and inside the program, c_caps_min >= 2
     kv = dict(t.split('=') for t in out[4].split()) if '=' in out[4] else {}
+    # the driver derives the level ends from level_starts (stop[i] = start[i+1], last = len(ops)); the object's own level_stops must be these
+    real_stops = [int(x) for x in so.level_stops]
+    if real_stops != [int(x) for x in so.level_starts[1:]] + [len(so.ops)]:
+        kv['onelevel'] = f'false(level_stops={real_stops})'
     cert.last_clash = int(kv.get('clash', 0))
     # tie of writer_before_reader_simops / memory_any_schedule_all_circuits: rows, level_starts and the map of the Lean SimOps model
     # (genOps, levelise, memMap) are EXACTLY the real ones on this case
